@@ -214,13 +214,45 @@ def check_generators(rep, A):
                         gn = f.defs.get(ginc.get(True, ''))
                         if ginc.get(False) == '1' and gn is not None and gn.op == 'call' and base_name(gn.callee) == 'gf_mul' and sorted(x[1] for x in gn.args) == sorted([gen[0], '2']):
                             ok = True
+                        elif ginc.get(False) == '1' and is_inline_mul2(f, ginc.get(True, ''), gen[0]):
+                            ok = True
                         else:
-                            why = 'the row generator is not gen0 = 1, gen <- gf_mul(gen, 2)'
+                            why = 'the row generator is not gen0 = 1, gen <- 2*gen in GF(2^8)/0x11D (gf_mul(gen, 2) or the shift-and-reduce idiom with 0x1d)'
                     else:
                         why = 'the column multiplier is not carried by the row loop'
                 else:
                     why = 'the running product is not p0 = 1, p <- gf_mul(p, gen)'
             R.check(ok, mod_where(F, st), 'gf_gen_rs_matrix: %s' % why, key='G-GEN-FORMULA|rs|value', sample='rs: p0 = 1, p <- p*gen; gen0 = 1, gen <- gen*2')
+
+
+def is_inline_mul2(f, v, g):
+    """v == (g << 1) ^ (g & 0x80 ? 0x1d : 0) on 8 bits, modulo the integer promotions"""
+    def strip(x):
+        d = f.defs.get(x)
+        while d is not None and d.op in ('zext', 'sext', 'trunc', 'freeze'):
+            x = d.ops[0]
+            d = f.defs.get(x)
+        return x
+    d = f.defs.get(strip(v))
+    if d is None or d.op != 'xor':
+        return False
+    parts = [f.defs.get(strip(o)) for o in d.ops]
+    shl = [p for p in parts if p is not None and p.op == 'shl' and p.ops[1] == '1' and strip(p.ops[0]) == strip(g)]
+    sel = [p for p in parts if p is not None and p.op == 'select']
+    if len(shl) != 1 or len(sel) != 1:
+        return False
+    c = f.defs.get(sel[0].ops[0])
+    vals = sorted(sel[0].ops[1:])
+    if c is None or c.op != 'icmp' or vals != ['0', '29']:
+        return False
+    # the condition tests bit 7 of g: (g & 0x80) != 0 or g < 0 as a signed byte
+    a = f.defs.get(strip(c.ops[0]))
+    nonzero_gives = sel[0].ops[1] if c.extra['pred'] == 'ne' else sel[0].ops[2] if c.extra['pred'] == 'eq' else None
+    if a is not None and a.op == 'and' and '128' in a.ops and strip([o for o in a.ops if o != '128'][0]) == strip(g) and c.ops[1] == '0':
+        return nonzero_gives == '29'
+    if c.extra['pred'] == 'slt' and strip(c.ops[0]) == strip(g) and c.ops[1] == '0':
+        return sel[0].ops[1] == '29'
+    return False
 
 
 def mod_where(F, i):
